@@ -95,7 +95,9 @@ def run_imc(case, ctx, d):
     b = np.array(case["b"], dtype=float) / 8.0
     nonsym = np.linalg.norm(A - A.T) > 0.1 * max(np.linalg.norm(A), 1e-300)
     exactly_sym = np.array_equal(A, A.T)
+    symmetrised = False
     if not exactly_sym and is_known(ctx, "imcio_read_matrix/transposed"):
+        symmetrised = True
         # class excluded by construction while the finding is open: use the symmetric part
         A = (A + A.T) / 2.0
         nonsym = False
@@ -140,7 +142,7 @@ def run_imc(case, ctx, d):
     if case["strided"]:
         r.cls("strided-index")
     r.cls("cond<1e3" if cond < 1e3 else "cond<1e6" if cond < 1e6 else "cond<1e9")
-    r.nontrivial = bool(nonsym and len(index) >= 2)
+    r.nontrivial = bool((nonsym or symmetrised) and len(index) >= 2)
     if sanitizer_report(out):
         return r.fail("csg_imc_solve/sanitizer", out[-1500:])
     if rcode != 0:
